@@ -5,7 +5,13 @@ ok = True
 def chk(path, schema):
     global ok
     try:
-        jsonschema.validate(json.load(open(path)), json.load(open(schema)))
+        d = json.load(open(path))
+        jsonschema.validate(d, json.load(open(schema)))
+        cov = d.get("coverage", {}) if isinstance(d, dict) else {}
+        if d.get("level") == "proof" and "obligations" in cov and cov.get("discharged") != cov.get("obligations"):
+            raise Exception("proof-level evidence with discharged %s != obligations %s (evidence of a run on a mutated tree?)" % (cov.get("discharged"), cov.get("obligations")))
+        if d.get("violations"):
+            raise Exception("evidence of a run that reported violations")
         print("valid  ", path)
     except Exception as e:
         ok = False
